@@ -165,6 +165,63 @@ pub fn run(run: &mut Run) {
         }
     }
 
+    // ---- the range is a list literal of *expressions*: elements that read an outer variable named
+    //      like the iteration variable, and logging host calls. The whole range is evaluated, left
+    //      to right, in the enclosing scope, before the first body evaluation (lengths 0..3 over 6
+    //      element expressions; outer x = 1)
+    run.sub("range-expressions");
+    {
+        env.hosts.insert("id".into(), Host::Ident);
+        let ctx0 = hosts::context_for(&env, &log);
+        let mut ctx = ctx0.new_inner_scope();
+        ctx.add_variable_from_value("x", 1i64);
+        let int = |v: i64| E::Lit(MV::Int(v));
+        let elems: Vec<E> = vec![
+            x(),
+            E::Bin("+", b(x()), b(int(8))),
+            E::Bin("-", b(x()), b(int(1))),
+            call("id", vec![int(9)]),
+            call("id", vec![x()]),
+            E::Bin("/", b(int(1)), b(E::Bin("-", b(x()), b(int(1))))),
+        ];
+        let mut ranges: Vec<Vec<usize>> = vec![vec![]];
+        let mut last: Vec<Vec<usize>> = vec![vec![]];
+        for _ in 0..3 {
+            let mut next = vec![];
+            for l in &last {
+                for a in 0..elems.len() {
+                    let mut n = l.clone();
+                    n.push(a);
+                    next.push(n);
+                }
+            }
+            ranges.extend(next.iter().cloned());
+            last = next;
+        }
+        for form in FORMS.iter() {
+            for (pred, tr) in [(pred_host.clone(), tr_host.clone()), (pred_pure.clone(), tr_pure.clone())].iter() {
+                for r in ranges.iter() {
+                    if !run.take() {
+                        continue;
+                    }
+                    let range = E::List(r.iter().map(|k| elems[*k].clone()).collect());
+                    // the macro, then the outer name again (must still be the outer value)
+                    let e = E::List(vec![macro_expr(*form, range, "x", pred.clone(), tr.clone()), x()]);
+                    let src = e.src();
+                    log.lock().unwrap().clear();
+                    let got = subj::run_src(&src, &ctx);
+                    run.trans(2);
+                    let got_log = log.lock().unwrap().clone();
+                    env.frames.truncate(1);
+                    env.set("x", MV::Int(1));
+                    judge(run, "range-expr", &format!("{}{}", form.0, form.1), &e, &format!("`{}` with x=1", src), &mut env, &got, &got_log);
+                }
+            }
+        }
+        env.frames.truncate(1);
+        env.hosts.remove("id");
+    }
+
     // ---- maps: the macro ranges over the keys; iteration order is read from the same map value
     run.sub("maps");
     let order_prog = Program::compile("m.map(k, k)").unwrap();
